@@ -60,10 +60,15 @@ impl Shape {
     }
 
     pub(crate) fn strides(&self) -> Strides {
-        let mut strides = vec![1; self.len()];
+        let mut strides = vec![1usize; self.len()];
 
+        // Saturate rather than overflow: the strides of a shape with an absurd number of elements
+        // can only belong to an empty array (some other axis has length zero) and are never used
         for (i, v) in self.iter().enumerate().skip(1).rev() {
-            strides.iter_mut().take(i).for_each(|stride| *stride *= v)
+            strides
+                .iter_mut()
+                .take(i)
+                .for_each(|stride| *stride = stride.saturating_mul(*v))
         }
 
         Strides(strides)
